@@ -12,9 +12,11 @@
 (* c.ts / c.com (the element's own time) are rendered but appear in no Judge: *)
 (* the property does not mention them, so no answer may depend on them.      *)
 (*                                                                           *)
-(* Lines of kind "group" (mputil.Group on the case's way) carry                *)
-(*   g = [outer, inner (segments [idx, ori, rev, line]), tainted, crash,       *)
-(*        aerr / applied (ApplyUpdatesUpTo(t1) on a copy, its LineString()), state] *)
+(* Lines of kind "group" (a sequence of queries on the case's way) carry       *)
+(*   g.answers[i] = [line (op lsat), outer, inner (op group: segments          *)
+(*        [idx, ori, rev, line]), tainted, crash, aerr / applied               *)
+(*        (ApplyUpdatesUpTo(t) on a copy taken before the sequence, its LineString())] *)
+(*   g.state = the way after the last query, g.own                             *)
 (*                                                                           *)
 (* Failed(ln) evaluates the Judge operators of Updates.tla (the property as  *)
 (* stated).  Diverged(ln) compares everything recorded with the Model; it is *)
@@ -25,17 +27,25 @@ Lines == ndJsonDeserialize(IOEnv.REC)
 
 F(name, ok) == IF ok THEN {} ELSE {name}
 
-\* kind "group": [outer, inner, tainted, crash, aerr, applied, state]
+\* kind "group": g = [answers |-> one per query, state |-> the way after the last query, own]
 FailedGroup(ln) ==
-  LET c == ln.case  g == ln.got IN
-  F("Group", /\ GroupJ(c.children, c.updates, c.t1, c.members, g.outer \o g.inner, g.applied)
-             /\ (GeomHyp("way", c.children, c.updates, c.t1) => (~g.crash /\ g.aerr = "none")))
+  LET c == ln.case  g == ln.got  chs == c.children  ups == c.updates IN
+     F("Query", /\ Len(g.answers) = Len(c.queries)
+                /\ \A i \in 1 .. Len(c.queries) :
+                      /\ QueryJ(chs, ups, c.members, c.queries[i], g.answers[i])
+                      /\ (GeomHyp("way", chs, ups, c.queries[i].t) => (~g.answers[i].crash /\ g.answers[i].aerr = "none")))
+  \cup F("QueryPure", QueryPureJ(chs, ups, g.state))
 DivergedGroup(ln) ==
-  LET c == ln.case  g == ln.got  chs == c.children  ups == c.updates  ms == c.members IN
-     F("M_group_outer", g.outer = GroupSegs(chs, ups, c.t1, ms, "outer", FALSE))
-  \cup F("M_group_inner", g.inner = GroupSegs(chs, ups, c.t1, ms, "inner", FALSE))
-  \cup F("M_group_tainted", g.tainted = GroupTainted(chs, ups, c.t1, ms, FALSE))
-  \cup F("M_group_pure", g.state = [children |-> chs, pending |-> ups] /\ ~g.crash)
+  LET c == ln.case  g == ln.got  chs == c.children  ups == c.updates  ms == c.members
+      OkAns(i) == LET q == c.queries[i]  a == g.answers[i] IN
+                  /\ ~a.crash
+                  /\ a.applied = LineString(Apply("way", chs, ups, q.t).children)
+                  /\ (IF q.op = "lsat" THEN a.line = LsAt(chs, ups, q.t, FALSE)
+                      ELSE /\ a.outer = GroupSegs(chs, ups, q.t, ms, "outer", FALSE)
+                           /\ a.inner = GroupSegs(chs, ups, q.t, ms, "inner", FALSE)
+                           /\ a.tainted = GroupTainted(chs, ups, q.t, ms, FALSE)) IN
+     F("M_query", \A i \in 1 .. Len(c.queries) : OkAns(i))
+  \cup F("M_own", g.own = <<c.ts, c.com>>)
 
 FailedElem(ln) ==
   LET c == ln.case  g == ln.got  k == c.kind  chs == c.children  ups == c.updates IN
